@@ -14,7 +14,9 @@ process:
     @synthdef decorator, store + reading the files back, deferred writing};
     after every step the build context is None, the build lock is free, units
     created outside (plain, multi-output, width-first) have no definition and
-    good builds equal the reference bytes.
+    good builds equal the reference bytes.  A third alphabet holds definitions
+    in which the library creates helper units itself (silence for zero
+    channels of every sink class, K2A, info units, Env.circle).
 (c) census (cross-process): the outcome of a fixed set of definitions and
     programs is computed in fresh subprocesses under several PYTHONHASHSEED
     values, in NRT and in RT-virtual mode, forwards and backwards; all equal.
@@ -70,7 +72,14 @@ DESC = ['desc:g:ctl', 'desc:g:p0:nokeep', 'desc:g:ctl:bad']
 # function of g:sh1 built without variants and metadata (its None defaults are
 # then not replaced by spec defaults).
 SHARED = ['g:sh1', 'g:sh2', 'g:sh3', 'f:sh']
-ALL_DEFS = GOOD + SMALL + FAIL + FAIL_MORE + SHARED
+# definitions in which the library makes helper units of its own accord - the
+# places where a maintainer is tempted to memoise "the one" helper on a unit
+# class or in a module: the DC.ar(0) silence that replaces literal / folded
+# zero channels of every audio sink class (Out, ReplaceOut, OffsetOut, XOut,
+# LocalOut; flat and nested channel lists), K2A for non-audio inputs of
+# delays, the info units behind SoundIn, the Latch/Impulse of Env.circle
+ZERO = ['g:zout', 'g:zrep', 'g:zx', 'g:zall', 'f:zero']
+ALL_DEFS = GOOD + SMALL + FAIL + FAIL_MORE + SHARED + ZERO
 # other public routes that build a definition or read one back (every one of
 # them is 'earlier use of the library' for what follows)
 LIBUSE = ['add:g:ctl', 'deco:g:sh1', 'deco:g:sh3', 'store:g:sh1', 'late:g:p0']
@@ -78,9 +87,13 @@ LANE_MAPS = ['alt', 'mix', 'three']     # names of mc.checks.c01.LANES
 # (b) second alphabet: shared objects x library routes x width-first units
 OPS2 = SHARED + LIBUSE + ['g:wrapfft', 'f:fn', 'f:type', 'desc:g:wrapfft',
                           'bare']
+# (b) third alphabet: implicit helper units x failing builds x read-back
+OPS3 = ZERO + ['desc:g:zall', 'deco:g:zout', 'g:ctl', 'f:fn', 'bare']
+# (a) definitions that are built repeatedly on their own
+REP_DEFS = GOOD + SMALL + ['g:sh1', 'g:sh2', 'g:sh3'] + ZERO
 # census items that are operations (the definition built in them is compared)
 CENSUS_OPS = LIBUSE + ['add:g:sh2', 'deco:g:ctl', 'deco:g:s1',
-                       'desc:g:wrapfft']
+                       'desc:g:wrapfft', 'deco:g:zout', 'desc:g:zall']
 
 _L = None
 
@@ -94,8 +107,9 @@ def _lib():
         from sc3.synth.synthdesc import SynthDesc
         from sc3.synth.envelope import Env
         from sc3.synth.ugens import (oscillators, inout, noise, pan, envgen,
-                                     bufio, fft, filter, infougens)
+                                     bufio, fft, filter, infougens, delays)
         L.info = infougens
+        L.dly = delays
         L.SynthDef, L.SynthDesc, L.Env = SynthDef, SynthDesc, Env
         L.osc, L.io, L.noise, L.pan, L.eg, L.buf, L.fft, L.flt = (
             oscillators, inout, noise, pan, envgen, bufio, fft, filter)
@@ -282,6 +296,48 @@ def _def_table(key, m):
         def graph(out=0):
             m.io.Out.ar(out, m.SynthDef.wrap(inner))
         return m.SynthDef('g2', graph)
+    if key in ZERO:
+        def sig(freq):
+            return m.osc.SinOsc.ar(freq)
+        if key == 'g:zout':
+            def graph(freq=440):
+                s = sig(freq)
+                m.io.Out.ar(0, [s, 0])              # literal zero channel
+                m.io.Out.ar(2, [s * 0, s])          # folded zero channel
+        elif key == 'g:zrep':
+            def graph(freq=330):
+                s = sig(freq)
+                m.io.ReplaceOut.ar(0, [0, s])
+                m.io.OffsetOut.ar(2, [s, 0.0, s - s * 1])
+        elif key == 'g:zx':
+            def graph(freq=220, mix=0.5):
+                s = sig(freq)
+                back = m.io.LocalIn.ar(2)
+                m.io.XOut.ar(0, mix, [s + back[0], 0])
+                m.io.LocalOut.ar([0 * s, s * 0.5])
+        elif key == 'g:zall':
+            def graph(freq=550, mix=0.25):
+                s = sig(freq)
+                back = m.io.LocalIn.ar(2)
+                mic = m.io.SoundIn.ar([0, 1])
+                d = m.dly.DelayN.ar(0.0, 0.1, 0.1) + m.dly.CombN.ar(
+                    m.osc.SinOsc.kr(3), 0.1, 0.1, 1)
+                loop = m.Env([0, 1, 0], [0.1, 0.2]).circle()
+                e = m.eg.EnvGen.kr(loop) * m.info.SampleRate.ir() \
+                    / m.info.SampleRate.ir()
+                m.io.LocalOut.ar([s * e, 0])
+                m.io.XOut.ar(4, mix, [0, back[1] + d])
+                m.io.OffsetOut.ar(2, [mic[0] * 0, mic[1]])
+                m.io.ReplaceOut.ar(6, [s, 0, s])
+                m.io.Out.ar(0, [[s, 0], [0.0, back[0]]])   # nested lists
+        else:
+            def graph(freq=110):
+                s = sig(freq)
+                m.io.Out.ar(0, [s, 0])
+                m.io.XOut.ar(2, 0.5, [0, s])
+                m.io.LocalOut.ar([s * 0])
+                raise ValueError('the graph function fails')
+        return m.SynthDef('gz', graph)
     if key == 'f:type':
         # a callable that is not a function: refused after the context is set
         import functools
@@ -554,9 +610,47 @@ def check_rep(prog, builds):
     return dis, ref['nontrivial'], outcome
 
 
+def check_rep_def(key, builds):
+    """The definition `key` built `builds` times in a row (all objects kept
+    alive); same oracle as check_rep: all results equal, nothing left set."""
+    from sc3.base.main import main
+    outs = []
+    keep = []
+    dis = []
+    for _ in range(builds):
+        o = run_op(key, keep)
+        outs.append(o)
+        if main._current_synthdef is not None or \
+                main._def_build_lock.locked():
+            if not dis:
+                dis.append(('rep-context-or-lock-left-after-definition',
+                            None, f'after build {len(outs)} ({o[0]})', ''))
+            force_clean()
+    first = outs[0]
+    for i, o in enumerate(outs[1:], 1):
+        if o[0] != first[0]:
+            dis.append(('rep-def-outcome-differs', first[0], o[0],
+                        f'build 1 vs build {i + 1} of {key}'))
+            break
+        if o[0] == 'ok' and o[1] != first[1]:
+            dis.append(('rep-def-bytes-differ', first[1], o[1],
+                        f'build 1 vs build {i + 1} of {key}'))
+            break
+    return dis, True, first[:2]
+
+
 def _rep_walk(job, upto=None):
     """Run the shard (or its first `upto`+1 programs); yields per program
     (index, prog, result of check_rep)."""
+    if job['space'] == 'defs':
+        # one definition per fresh process would hide nothing, but then no
+        # earlier definition could have seeded a cache either: each job
+        # builds its definitions one after the other
+        for idx, key in enumerate(job['keys']):
+            yield idx, {'def': key}, check_rep_def(key, job['builds'])
+            if upto is not None and idx >= upto:
+                return
+        return
     from mc.checks import c01
     it = c01.programs(job['space'], job['shard'], job['of'], job['tagbase'],
                       job.get('slice_of', 1), job.get('slice_ix', 0),
@@ -579,7 +673,7 @@ def work_rep(job):
         for kind, exp, obs, detail in dis:
             case = {'part': 'a', 'prog': prog, 'builds': REPLAY_BUILDS}
             cands.add(kind, case, {'job': walk_job, 'index': idx}, idx, exp,
-                      obs, detail, len(prog['stmts']) * 10000 +
+                      obs, detail, len(prog.get('stmts', ())) * 10000 +
                       len(core.canon(prog)))
         acc.case(prog, nt, outcome, steps=job['builds'])
         if any(hidden_residue(d[0]) for d in dis):
@@ -597,6 +691,8 @@ def replay_rep(case):
         if r is None or prog != case['prog']:
             return []
         return r[0]
+    if 'def' in case['prog']:
+        return check_rep_def(case['prog']['def'], case['builds'])[0]
     r = check_rep(case['prog'], case['builds'])
     return [] if r is None else r[0]
 
@@ -1378,6 +1474,14 @@ def main(ctx):
     _run_part(ctx, 'nrt', 'work_rep', jobs,
               f'(a) 1 statement over channel lists ({len(LANE_MAPS)} lane '
               f'maps), {builds} builds each', cands)
+    # definitions with implicit helper units, options, shared objects: each
+    # built repeatedly; a job runs its definitions one after the other in
+    # one process, forwards in one job and backwards in the other
+    jobs = [{'space': 'defs', 'keys': REP_DEFS, 'builds': builds},
+            {'space': 'defs', 'keys': REP_DEFS[::-1], 'builds': builds}]
+    _run_part(ctx, 'nrt', 'work_rep', jobs,
+              f'(a) {len(REP_DEFS)} definitions of the alphabets, {builds} '
+              'builds each, in both orders', cands)
     if quick:
         # 236 first statements, dealt to 8 shards; slice = every k-th round
         k = 30
@@ -1397,11 +1501,12 @@ def main(ctx):
 
     # (b) histories
     ops = GOOD + FAIL + DESC + ['bare']
-    plans = [(ops, 4), (OPS2, 3)]
+    plans = [(ops, 4), (OPS2, 3), (OPS3, 3)]
     if not quick:
         plans.append((ops + FAIL_MORE + SMALL, 3))
         plans.append((OPS2, 4))
-        plans.append((sorted(set(ops + OPS2)), 3))
+        plans.append((OPS3, 4))
+        plans.append((sorted(set(ops + OPS2 + OPS3)), 3))
         plans.append((['g:p0', 'g:ctl', 'f:fn', 'f:rate', 'f:name', 'f:intr',
                        'desc:g:ctl', 'desc:g:ctl:bad', 'bare'], 5))
     for opl, depth in plans:
@@ -1421,7 +1526,8 @@ def main(ctx):
     if not quick:
         small = small + ['f:nan', 'f:sig', 'desc:g:s2:nokeep', 'deco:g:s1',
                          'f:type']
-        rich = rich + ['f:wrap', 'f:intr', 'g:sh1', 'f:sh']
+        rich = rich + ['f:wrap', 'f:intr', 'g:sh1', 'f:sh', 'g:zall',
+                       'f:zero']
     max_pre = 2 if quick else 3
     nscn = 0
     for label, opl, mp in (('small', small, max_pre),
@@ -1435,7 +1541,7 @@ def main(ctx):
                   f'alphabet ({len(opl)} operations), <= {mp} preemptions',
                   cands)
     ctx.extra['scenarios'] = nscn
-    ctx.extra['operations'] = sorted(set(ops + OPS2))
+    ctx.extra['operations'] = sorted(set(ops + OPS2 + OPS3))
     ctx.extra['exhaustive_bounds'] = [b for b in ctx.bounds
                                       if 'not exhaustive' not in b]
 
